@@ -209,6 +209,88 @@ def r3_key_derivation(ctx):
                 r.ok(k, cfg.loc(body), "returned key depends on `%s`" % p, work=len(sl.nodes))
             else:
                 r.violation(k, cfg.loc(body), "the derived key does not depend on `%s`" % p, work=len(sl.nodes))
+        # path-sensitive half: the bytes handed to hash_password contain the password on
+        # EVERY path, and the seed on every path on which a seed is present
+        live = cfg.live_blocks(body)
+        hcalls = [(i, t) for i, t in idioms.real_calls(body, live) if cname(t) == "hash_password"]
+        if hcalls:
+            hi, ht = hcalls[0]
+            hsl = fg.back_from_operand(body, ht["args"][1] if len(ht["args"]) > 1 else ht["args"][0])
+            hnodes = hsl.nodes
+
+            # the buffer object handed to hash_password: follow `buffer.as_slice()` / `&buffer` back
+            defs_ = cfg.defs_of(body)
+
+            def base_local(place, depth=0):
+                l = cfg.place_local(place)
+                ds = defs_.get(l, [])
+                if depth > 6 or len(ds) != 1:
+                    return l
+                _bi, st, is_term = ds[0]
+                if is_term and st.get("k") == "call" and cname(st) in ("as_slice", "as_ref", "deref", "as_bytes", "borrow") and st.get("args"):
+                    p2 = cfg.op_place(st["args"][0])
+                    return base_local(p2, depth + 1) if p2 else l
+                if not is_term and st.get("k") in ("ref", "refmut"):
+                    return base_local(st["p"], depth + 1)
+                if not is_term and st.get("k") == "use" and cfg.op_place(st["ops"][0]):
+                    return base_local(cfg.op_place(st["ops"][0]), depth + 1)
+                return l
+            harg = ht["args"][1] if len(ht["args"]) > 1 else ht["args"][0]
+            B = base_local(cfg.op_place(harg)) if cfg.op_place(harg) else None
+            # every local that is moved into B (`let buffer = { let mut b = ..; b }`)
+            bufs = {B}
+            changed = True
+            while changed:
+                changed = False
+                for x in list(bufs):
+                    for (_bi, st, is_term) in defs_.get(x, []):
+                        if not is_term and st.get("k") == "use" and cfg.op_place(st["ops"][0]) and "." not in cfg.op_place(st["ops"][0]):
+                            y = cfg.place_local(cfg.op_place(st["ops"][0]))
+                            if y not in bufs:
+                                bufs.add(y)
+                                changed = True
+
+            def is_buf_ref(op):
+                p_ = cfg.op_place(op)
+                if p_ is None:
+                    return False
+                l = cfg.place_local(p_)
+                if l in bufs:
+                    return True
+                ds = defs_.get(l, [])
+                return len(ds) == 1 and not ds[0][2] and ds[0][1].get("k") == "refmut" and cfg.place_local(ds[0][1]["p"]) in bufs
+
+            def write_sites(var):
+                out = set()
+                for i in live:
+                    t_ = body.blocks[i].get("term") or {}
+                    if t_.get("k") != "call" or not t_.get("args"):
+                        continue
+                    into_buf = (t_.get("dest") and "." not in t_["dest"] and cfg.place_local(t_["dest"]) in bufs) or any(is_buf_ref(a) for a in t_["args"])
+                    if not into_buf or cname(t_) in ("with_capacity", "reserve", "reserve_exact", "new", "len", "as_slice", "clear"):
+                        continue
+                    others = [a for a in t_["args"] if not is_buf_ref(a)]
+                    if any(fg.back_from_operand(body, a).has_var(body, var) for a in others):
+                        out.add(i)
+                return out
+            pw_sites = write_sites("password")
+            k = f.root + "|password-on-every-path"
+            if not pw_sites or hi in cfg.reach(body, [0], cut_blocks=pw_sites):
+                p_ = cfg.find_path(body, [0], [hi], cut_blocks=pw_sites)
+                r.violation(k, cfg.loc(body, hi), "hash_password can be reached on a path on which the password never entered its input: on that path (e.g. when a seed is present) the key does not depend on the password", work=len(live), witness=cfg.path_lines(body, p_))
+            else:
+                r.ok(k, cfg.loc(body, hi), "every path to hash_password writes the password into its input", work=len(live))
+            seed_sites = write_sites("seed")
+            some_edges = set()
+            for es in cfg.enum_switches(body):
+                if es.enum == "core::option::Option" and "Some" in es.targets and body.var_name(cfg.place_local(es.place)) == "seed":
+                    some_edges.add(es.targets["Some"])
+            k = f.root + "|seed-on-every-seeded-path"
+            if some_edges:
+                if hi in cfg.reach(body, sorted(some_edges), cut_blocks=seed_sites):
+                    r.violation(k, cfg.loc(body, hi), "with a seed present, hash_password can be reached without the seed having entered its input", work=len(live))
+                else:
+                    r.ok(k, cfg.loc(body, hi), "on the Some(seed) path the seed is written into the hash input", work=len(live))
         if any(cname(t) == "hash_password" for _b, _i, t in f.calls()):
             r.ok(f.root + "|kdf", cfg.loc(body), "goes through hash_password (Argon2id / Balloon)", work=1)
         else:
